@@ -635,8 +635,14 @@ impl FileStateMachine {
                             };
 
                             if is_expired {
-                                // Skip restoring expired keys (durable expiration semantics)
+                                // Skip restoring expired keys (durable expiration semantics).
+                                // The expired write still replaced whatever the key held before,
+                                // so an older value restored earlier must not come back.
                                 debug!("Skipped expired key during WAL replay: key={:?}", key);
+                                data.remove(&key);
+                                if let Some(ref lease) = self.lease {
+                                    lease.unregister(&key);
+                                }
                                 skipped_expired += 1;
                                 continue;
                             }
